@@ -1,5 +1,6 @@
 import Pds.Proofs.KernelTie.CuckooUnion
 import Pds.Proofs.KernelTie.QfOps
+import Pds.Proofs.KernelTie.QfUnion
 /-!
 # C12 — tie by translation (flow mode): the rollback machinery of the cuckoo filter
 `insert_internal` (what it logs), `restore_state` (how the log is replayed) and the public `insert`
@@ -46,5 +47,19 @@ theorem qf_insert_internal_translated {N : Nat} (t : Quotient.St N) (q : Fin N) 
       match Quotient.insertInternal t q r with
       | none => Flow.panic
       | some (t', res) => Flow.ret (qfRes res, (occL t', contL t', shiftL t', remL t', t'.n)) := qf_insert_internal_eq t q r
+
+/-- `QuotientFilter::union` as translated is the model's `union` (for every table size; `Err(Full)` = 2 restores
+the complete backup, `Ok(())` = 1) -/
+theorem qf_union_translated {N : Nat} (qb rb : Nat) (t o : Quotient.St N) :
+    qf_union qb rb (occL t) (contL t) (shiftL t) (remL t) t.n qb rb (occL o) (contL o) (shiftL o) (remL o) =
+      match Quotient.union t o with
+      | none => Flow.panic
+      | some (t', .full) => Flow.ret (2, (occL t', contL t', shiftL t', remL t', t'.n))
+      | some (t', .ok _) => Flow.ret (1, (occL t', contL t', shiftL t', remL t', t'.n)) := qf_union_eq qb rb t o
+
+/-- a bit-width mismatch between the two filters is the `assert_eq!` panic -/
+theorem qf_union_mismatch_translated (qb rb qb' rb' : Nat) (h : qb ≠ qb' ∨ rb ≠ rb') (a b c : List Bool) (d : List Nat) (n : Nat)
+    (a' b' c' : List Bool) (d' : List Nat) :
+    qf_union qb rb a b c d n qb' rb' a' b' c' d' = Flow.panic := qf_union_mismatch qb rb qb' rb' h a b c d n a' b' c' d'
 
 end Pds.Tie.C12
